@@ -1,1 +1,234 @@
-//! Small kernels: string packing (C02), `parse_words` byte view (C04), header (C03), literals (C10).
+//! Small kernels: header (C03), string packing (C02), `parse_words` byte view (C04), literals (C10).
+use rspirv::binary::{Assemble, Consumer, DecodeError, ParseAction, ParseState};
+use rspirv::dr;
+
+pub struct Nop;
+impl Consumer for Nop {
+    fn initialize(&mut self) -> ParseAction {
+        ParseAction::Continue
+    }
+    fn finalize(&mut self) -> ParseAction {
+        ParseAction::Continue
+    }
+    fn consume_header(&mut self, _m: dr::ModuleHeader) -> ParseAction {
+        ParseAction::Continue
+    }
+    fn consume_instruction(&mut self, _i: dr::Instruction) -> ParseAction {
+        ParseAction::Continue
+    }
+}
+
+pub const E_HEADER_ACCEPT: u32 = 500;
+pub const E_HEADER_BOUND: u32 = 501;
+pub const E_HEADER_VERSION: u32 = 502;
+pub const E_HEADER_ERROR_KIND: u32 = 503;
+pub const E_HEADER_ERROR_OFFSET: u32 = 504;
+pub const E_STR_WORDS: u32 = 510;
+pub const E_STR_BYTES: u32 = 511;
+pub const E_STR_PADDING: u32 = 512;
+pub const E_STR_ROUNDTRIP: u32 = 513;
+pub const E_WORDS_VIEW: u32 = 520;
+pub const E_LIT_WIDTH: u32 = 530;
+pub const E_LIT_VALUE: u32 = 531;
+pub const E_LIT_ERROR: u32 = 532;
+
+pub const HDR_RAW: usize = 25;
+
+/// raw: [len (<= 24), bytes...]
+pub fn parse_header(raw: &[u8; HDR_RAW]) -> u32 {
+    let len = raw[0] as usize;
+    if len > 24 {
+        return 1;
+    }
+    let bytes = &raw[1..1 + len];
+    let mut c = Nop;
+    let r = rspirv::binary::verif::parse_header(bytes, &mut c);
+    let w = |i: usize| u32::from_le_bytes([bytes[4 * i], bytes[4 * i + 1], bytes[4 * i + 2], bytes[4 * i + 3]]);
+    let complete = len >= 20;
+    let res = match r {
+        Ok(h) => {
+            if !complete || w(0) != 0x0723_0203 {
+                E_HEADER_ACCEPT
+            } else if h.bound != w(3) {
+                E_HEADER_BOUND
+            } else if h.version() != (bytes[6], bytes[5]) {
+                E_HEADER_VERSION
+            } else {
+                0
+            }
+        }
+        Err(ParseState::HeaderIncomplete(DecodeError::StreamExpected(o))) => {
+            if complete {
+                E_HEADER_ERROR_KIND
+            } else if o != 4 * (len / 4) {
+                E_HEADER_ERROR_OFFSET
+            } else {
+                0
+            }
+        }
+        Err(ParseState::EndiannessUnsupported) => {
+            if !complete || w(0) != 0x0302_2307 {
+                E_HEADER_ERROR_KIND
+            } else {
+                0
+            }
+        }
+        Err(ParseState::HeaderIncorrect) => {
+            if !complete || w(0) == 0x0723_0203 || w(0) == 0x0302_2307 {
+                E_HEADER_ERROR_KIND
+            } else {
+                0
+            }
+        }
+        Err(e) => {
+            core::mem::forget(e);
+            E_HEADER_ERROR_KIND
+        }
+    };
+    res
+}
+
+pub const STR_RAW: usize = 8;
+
+/// String packing (C02): raw = [len (<= 7), bytes]; NUL-free ASCII-agnostic bytes are packed little-endian, zero padded
+/// to a word boundary with at least one NUL; decoding the words gives the string back.
+pub fn string_pack(raw: &[u8; STR_RAW]) -> u32 {
+    string_pack_upto::<7>(raw)
+}
+
+pub fn string_pack_upto<const MAX: usize>(raw: &[u8; STR_RAW]) -> u32 {
+    let len = raw[0] as usize;
+    if len > MAX {
+        return 1;
+    }
+    let b = &raw[1..1 + len];
+    let mut j = 0;
+    while j < len {
+        if b[j] == 0 || b[j] >= 0x80 {
+            return 1;
+        }
+        j += 1;
+    }
+    // ASCII bytes are valid UTF-8; packing is byte-wise
+    let s = unsafe { core::str::from_utf8_unchecked(b) };
+    let op = core::mem::ManuallyDrop::new(dr::Operand::LiteralString(s.to_string()));
+    let words = core::mem::ManuallyDrop::new(op.assemble());
+    if words.len() != len / 4 + 1 {
+        return E_STR_WORDS;
+    }
+    let mut k = 0;
+    while k < 4 * words.len() {
+        let byte = (words[k / 4] >> (8 * (k % 4))) as u8;
+        if k < len {
+            if byte != b[k] {
+                return E_STR_BYTES;
+            }
+        } else if byte != 0 {
+            return E_STR_PADDING;
+        }
+        k += 1;
+    }
+    0
+}
+
+pub const WORDS_RAW: usize = 17;
+
+/// `parse_words` reinterprets &[u32] as bytes (unsafe): the byte view has 4n bytes, the words decode to themselves.
+pub fn words_view(raw: &[u8; WORDS_RAW]) -> u32 {
+    let n = (raw[0] % 5) as usize;
+    let mut ws = [0u32; 4];
+    let mut i = 0;
+    while i < 4 {
+        ws[i] = u32::from_le_bytes([raw[1 + 4 * i], raw[2 + 4 * i], raw[3 + 4 * i], raw[4 + 4 * i]]);
+        i += 1;
+    }
+    struct Rec {
+        hdr: u32,
+    }
+    impl Consumer for Rec {
+        fn initialize(&mut self) -> ParseAction {
+            ParseAction::Continue
+        }
+        fn finalize(&mut self) -> ParseAction {
+            ParseAction::Continue
+        }
+        fn consume_header(&mut self, _m: dr::ModuleHeader) -> ParseAction {
+            self.hdr += 1;
+            ParseAction::Stop
+        }
+        fn consume_instruction(&mut self, _i: dr::Instruction) -> ParseAction {
+            ParseAction::Stop
+        }
+    }
+    let mut c = Rec { hdr: 0 };
+    let r = core::mem::ManuallyDrop::new(rspirv::binary::parse_words(&ws[..n], &mut c));
+    // fewer than five words can never be a header
+    if c.hdr != 0 || r.is_ok() {
+        return E_WORDS_VIEW;
+    }
+    0
+}
+
+pub const LIT_RAW: usize = 16;
+
+/// `parse_literal` (C10): raw = [kind(0 unknown,1 int,2 float), signed, width(4), len(<=8), bytes(8)]
+pub fn parse_literal(raw: &[u8; LIT_RAW]) -> u32 {
+    let width = u32::from_le_bytes([raw[2], raw[3], raw[4], raw[5]]);
+    let len = raw[6] as usize;
+    if len > 8 || raw[0] > 2 {
+        return 1;
+    }
+    let bytes = &raw[7..7 + len];
+    let tracked = match raw[0] {
+        0 => None,
+        1 => Some((false, width, raw[1] % 2 == 1)),
+        _ => Some((true, width, false)),
+    };
+    let mut c = Nop;
+    let (r, off) = rspirv::binary::verif::parse_literal(bytes, &mut c, tracked);
+    let r = core::mem::ManuallyDrop::new(r);
+    let words = match tracked {
+        None => Some(1),
+        Some((false, w, _)) => match w {
+            8 | 16 | 32 => Some(1),
+            64 => Some(2),
+            _ => None,
+        },
+        Some((true, w, _)) => match w {
+            16 | 32 => Some(1),
+            64 => Some(2),
+            _ => None,
+        },
+    };
+    let le = |i: usize| u32::from_le_bytes([bytes[4 * i], bytes[4 * i + 1], bytes[4 * i + 2], bytes[4 * i + 3]]);
+    match (&*r, words) {
+        (Ok(dr::Operand::LiteralBit32(v)), Some(1)) => {
+            if len < 4 || off != 4 {
+                return E_LIT_WIDTH;
+            }
+            if *v != le(0) {
+                return E_LIT_VALUE;
+            }
+            0
+        }
+        (Ok(dr::Operand::LiteralBit64(v)), Some(2)) => {
+            if len < 8 || off != 8 {
+                return E_LIT_WIDTH;
+            }
+            if *v != ((le(1) as u64) << 32 | le(0) as u64) {
+                return E_LIT_VALUE;
+            }
+            0
+        }
+        (Ok(_), _) => E_LIT_WIDTH,
+        (Err(ParseState::TypeUnsupported(_, _)), None) => 0,
+        (Err(ParseState::OperandError(_)), Some(n)) => {
+            if len >= 4 * n {
+                E_LIT_ERROR
+            } else {
+                0
+            }
+        }
+        (Err(_), _) => E_LIT_ERROR,
+    }
+}
